@@ -323,7 +323,8 @@ impl UndefinedFunctionError {
             .to_string();
         let arity = map
             .get(&OwnedTerm::Atom(Atom::new("arity")))?
-            .as_integer()? as u8;
+            .as_integer()
+            .and_then(|v| u8::try_from(v).ok())?;
         let reason = map
             .get(&OwnedTerm::Atom(Atom::new("reason")))
             .and_then(|v| v.as_erlang_string());
@@ -586,7 +587,7 @@ impl FunctionClauseError {
         let arity = map
             .get(&OwnedTerm::Atom(Atom::new("arity")))
             .and_then(|a| a.as_integer())
-            .map(|a| a as u8);
+            .and_then(|a| u8::try_from(a).ok());
 
         let args = map
             .get(&OwnedTerm::Atom(Atom::new("args")))
